@@ -88,3 +88,52 @@ def debug_case(case, upto, cfg=(0, 0), workdir='/tmp'):
         f.write('Eval vm_compute in (let x := step cf pre %s in (snd x, dump (fst x))).\n' % terms[-1])
     p = subprocess.run(['coqc', '-Q', COQDIR, 'PV', path], capture_output=True, text=True, cwd=workdir)
     return p.stdout + p.stderr
+
+
+def check_sched_cases(cases, cfg=(0, 0), workdir=None, shard=200):
+    """cases: list of (setup_ops, request_ops, schedule, statuses, dump). -> indices that disagree."""
+    workdir = workdir or tempfile.mkdtemp(prefix='pvsched')
+    os.makedirs(workdir, exist_ok=True)
+    bad = []
+    for k in range(0, len(cases), shard):
+        part = cases[k:k + shard]
+        path = os.path.join(workdir, 'sched_%d.v' % k)
+        with open(path, 'w') as f:
+            f.write('From PV Require Import Model.Conc.\n')
+            f.write('Definition cf := mkCfg %d %d.\n' % cfg)
+            f.write('Definition cases : list (list req * list req * list Z * list Z * list (list (list Z))) := [\n')
+            items = []
+            for setup, reqs, schedule, sts, dmp in part:
+                rcmap = {}
+                # resource class name -> id map of the start state: custom classes are not created by scenarios
+                st = ops.lst(ops.op_coq(o, rcmap) for o in setup)
+                rq = ops.lst(ops.op_coq(o, rcmap) for o in reqs)
+                items.append('(%s, %s, %s, %s, %s)' % (st, rq, ops.lst(ops.z(i) for i in schedule),
+                                                       ops.lst(ops.z(i) for i in sts), ops.dump_coq(dmp)))
+            f.write(';\n'.join(items))
+            f.write('].\n')
+            f.write('Definition results := map (fun c => if sched_agrees cf c then 1 else 0) cases.\n')
+            f.write('Eval vm_compute in results.\n')
+        res = run_coq(path)
+        for i, r in enumerate(res):
+            if r != 1:
+                bad.append(k + i)
+        for ext in ('.v', '.vo', '.vok', '.vos', '.glob'):
+            try:
+                os.remove(path[:-2] + ext)
+            except OSError:
+                pass
+    return bad
+
+
+def debug_sched(case, cfg=(0, 0), workdir='/tmp'):
+    setup, reqs, schedule, sts, dmp = case
+    path = os.path.join(workdir, 'debug_sched.v')
+    with open(path, 'w') as f:
+        f.write('From PV Require Import Model.Conc.\n')
+        f.write('Definition cf := mkCfg %d %d.\n' % cfg)
+        f.write('Eval vm_compute in (let x := sched_result cf %s %s %s in (fst x, core_dump (snd x))).\n' % (
+            ops.lst(ops.op_coq(o, {}) for o in setup), ops.lst(ops.op_coq(o, {}) for o in reqs),
+            ops.lst(ops.z(i) for i in schedule)))
+    p = subprocess.run(['coqc', '-Q', COQDIR, 'PV', path], capture_output=True, text=True, cwd=workdir)
+    return p.stdout + p.stderr
